@@ -218,8 +218,14 @@ def check(an, rep, tier):
         return v is not None and v.k == 'list' and v.label == ('P', 'Y')
 
     def pair_status(I, i, y):
-        for q, args, res in I.call_log:
+        # the pair returned by optima_tt_max(T, .) as a whole comes first (a
+        # join of untyped values may hand back one of its operands, so the
+        # identity of an UNTYPED value alone does not identify a get() call)
+        log = sorted(I.call_log, key=lambda e: e[0] != 'optima.optima_tt_max')
+        for q, args, res in log:
             if q == 'act_one.get' and res is y:
+                if y.k == 'top':
+                    continue
                 if args.get('i') is i and is_arg_tensor(args.get('Y')):
                     return 'ok', ''
                 if not is_arg_tensor(args.get('Y')):
@@ -309,14 +315,23 @@ def check(an, rep, tier):
     rets4 = [n for n in ast.walk(ft.node) if isinstance(n, ast.Return) and
              isinstance(n.value, ast.Tuple) and len(n.value.elts) == 4]
     ok = bool(rets4)
+    reversed_ = False
     for rn in rets4:
         lo_, hi_ = rn.value.elts[1], rn.value.elts[3]
         gs_ = paths.guards_of(ft.node, rn)
         ok = ok and (paths.holds(gs_, lo_, ast.Lt, hi_) or
                      paths.holds(gs_, lo_, ast.LtE, hi_))
+        # found-but-wrong: the guards prove the OPPOSITE order, or the two
+        # orders are chosen by a test that does not compare the two values
+        if paths.holds(gs_, hi_, ast.Lt, lo_):
+            reversed_ = True
+        if len(rets4) >= 2 and gs_ and not (
+                paths.holds(gs_, lo_, ast.Lt, hi_) or
+                paths.holds(gs_, lo_, ast.LtE, hi_)):
+            reversed_ = True
     rep.add('P-order', 'optima.optima_tt', 'min slot receives the value the '
             'guard proved not larger, indices travel with their values',
-            'ok' if ok else 'violation',
+            'ok' if ok else ('violation' if reversed_ else 'unknown'),
             '' if ok else 'the (i_min, y_min, i_max, y_max) tuple is not '
             'ordered consistently with the comparison')
     # --- P-domain (shared with C17)
@@ -325,11 +340,11 @@ def check(an, rep, tier):
     for spec, bad in (('ttm6', True), ('ttm8', False)):
         I = interp.Interp(prog, dict(o))
         I.run_function(fq, {'Y': specs.build(spec, 'Y', 2)})
-        raised = any(x[1] == 'ValueError' for x in I.raises) and \
-            not I.entry_returns
+        from .common import dom3
+        st3, d3 = dom3(I.raises, I.entry_returns, bad)
         rep.add('P-domain', 'optima.optima_qtt', 'mode size %s %s'
                 % (spec[3:], 'rejected' if bad else 'accepted'),
-                'ok' if raised == bad else 'violation', '')
+                st3, '' if st3 == 'ok' else d3)
     I = interp.Interp(prog, dict(o))
     Y = specs.build('tt', 'Y', 2)
     I.run_function(fq, {'Y': Y})
@@ -377,5 +392,6 @@ def check(an, rep, tier):
                            first=_RF.Rat(_P.sym('@sqrt(0.5)')))
     rep.floor('F-basis', 4, 'normalised Chebyshev basis of the functional variant')
     rep.floor('P-select', 2, 'candidate ordering')
+    rep.floor('P-order', 1, 'min / max slots')
     rep.floor('O-pivot', 8, 'pivot typestates')
     rep.floor('S-einsum', 2, 'beam contractions')
